@@ -113,7 +113,29 @@ class ExactLocator:
         return worst
 
 
+def graded_mesh(rng, kind):
+    """One huge cell row next to many tiny ones (ratio 2^8): points of the huge cells close to the tiny ones are not
+    among the nearest centroids, so the finder's exhaustive fallback has to run."""
+    import skfem
+    n = int(rng.integers(6, 12))
+    fine = 1.0 + np.arange(n + 1) * 2.0 ** -8
+    x = np.concatenate([[0.0], fine])
+    y = np.concatenate([[0.0], 1.0 + np.arange(4) * 2.0 ** -8]) if rng.random() < 0.5 else np.array([0.0, 0.5, 1.0])
+    if kind == "tri":
+        m = skfem.MeshTri1.init_tensor(x, y)
+    elif kind == "quad":
+        m = skfem.MeshQuad1.init_tensor(x, y)
+    elif kind == "tet":
+        m = skfem.MeshTet1.init_tensor(x, y, np.array([0.0, 1.0]))
+    else:
+        m = skfem.MeshHex1.init_tensor(x, y, np.array([0.0, 1.0]))
+    p, t, _ = G.renumber(rng, np.asarray(m.p), np.asarray(m.t).astype(np.int64), kind)
+    return G.MeshCase(type(m)(p, t), kind, 1, {"gen": kind, "style": "graded-2^8", "ncells": int(t.shape[1])})
+
+
 def gen_mesh(ctx, rng, kind, k):
+    if k % 5 == 2 and kind in ("tri", "quad", "tet", "hex"):
+        return graded_mesh(rng, kind)
     if kind == "hex":
         mc = G.hex_mesh(rng, style=str(rng.choice(["tensor", "parallelepiped", "extruded"])))
     else:
@@ -201,14 +223,24 @@ def one_mesh(ctx, k, kind):
         try:
             c = finder(*[np.array([xi]) for xi in x])
             raised = None
-        except ValueError as e:
+        except (ValueError, IndexError) as e:  # "raises instead of returning a cell": the 1-D finder raises IndexError
             c, raised = None, e
+        if cont and kind in ("tri", "tet"):
+            cen = P[:, T].mean(axis=1)
+            kk = min(5 if kind == "tri" else 10, loc.nt)
+            near = np.argsort(((cen - np.asarray(x)[:, None]) ** 2).sum(axis=0))[:kk]
+            if not set(cont) & set(int(i) for i in near):
+                ctx.reached("finder-fallback-search-all")
+                ctx.nontrivial(type(mesh).__name__, cls, "fallback")
         if cont:
             if raised is not None:
                 # classify: is the point within rounding distance of a facet of its containing cell?
                 margin = min(min_facet_distance(loc, cc, x) for cc in cont) / float(hcell[cont].max())
-                mech = ("finder-rejects-points-within-rounding-of-a-facet" if margin <= 1e-12 and kind in ("tri", "tet", "quad", "hex", "wedge")
-                        else f"finder-raises-for-inside-point:{kind}")
+                mech = f"finder-raises-for-inside-point:{kind}"
+                if margin <= 1e-12 and kind in ("tri", "tet", "quad", "hex", "wedge"):
+                    mech = "finder-rejects-points-within-rounding-of-a-facet"
+                if kind == "line" and is_component_right_end(mesh, x):
+                    mech = "line-finder-rejects-right-endpoint-of-a-component-before-a-gap"
                 ctx.check("inside-point-is-located", False, mech=mech, point=x, cls=cls, containing=cont[:4],
                           relative_distance_to_nearest_facet=margin, **tag)
             else:
@@ -239,6 +271,14 @@ def one_mesh(ctx, k, kind):
         ctx.check("repeated-permuted-points", many.shape == (B.shape[1],) and
                   np.array_equal(many, np.concatenate([one[perm], one[perm[:2]]])), mech=f"finder-vectorised:{kind}", **tag)
     ctx.sample(dict(tag, points=len(pts), classes=sorted({c for c, _ in pts})), per_family=1)
+
+
+def is_component_right_end(mesh, x):
+    """1-D predicate: x is a vertex that is the right end of a cell, not the left end of any cell, and not the
+    global maximum."""
+    P, T = np.asarray(mesh.p)[0], np.asarray(mesh.t)
+    lo, hi = np.minimum(P[T[0]], P[T[1]]), np.maximum(P[T[0]], P[T[1]])
+    return bool((hi == x[0]).any() and not (lo == x[0]).any() and x[0] < P.max())
 
 
 def min_facet_distance(loc, c, x):
@@ -396,9 +436,9 @@ def fam(fn, kind):
 
 
 FAMILIES = []
-for kd, q, th in (("line", 6, 120), ("tri", 10, 300), ("quad", 8, 240), ("tet", 6, 160), ("hex", 5, 100), ("wedge", 4, 80)):
+for kd, q, th in (("line", 24, 480), ("tri", 40, 1200), ("quad", 32, 960), ("tet", 20, 500), ("hex", 16, 320), ("wedge", 12, 240)):
     FAMILIES.append(Family("locate-" + kd, fam(one_mesh, kd), q, th))
 for kd in ("line", "tri", "quad", "tet", "hex", "wedge"):
     n = (lambda ctx, kd=kd: len([r for r in EL.all_for_kind(kd, wrappers=True) if not r.skeleton and r.mesh_req == "any"
-                                  and not r.name.startswith("Composite(")]) * (1 if ctx.tier == "quick" else 20))
+                                  and not r.name.startswith("Composite(")]) * (2 if ctx.tier == "quick" else 30))
     FAMILIES.append(Family("probes-" + kd, fam(probes_case, kd), n, n, budget={"quick": 30, "thorough": 600}))
